@@ -84,6 +84,8 @@ struct Dumper<'tcx> {
     seen: HashSet<String>,
     /// printed path -> the distinct items that print alike (items of separate anonymous blocks, e.g. the wrappers serde_derive emits)
     alike: std::cell::RefCell<HashMap<String, Vec<DefId>>>,
+    /// typing environment of the body being dumped (closure types met there are instantiated in it)
+    cur_env: Option<TypingEnv<'tcx>>,
 }
 
 fn jstr(s: impl Into<String>) -> J {
@@ -109,6 +111,7 @@ impl<'tcx> Dumper<'tcx> {
             queue: VecDeque::new(),
             seen: HashSet::new(),
             alike: std::cell::RefCell::new(HashMap::new()),
+            cur_env: None,
         }
     }
 
@@ -166,13 +169,16 @@ impl<'tcx> Dumper<'tcx> {
 
     fn core_fallback(&self, d: DefId) -> bool {
         let p = self.path(d);
-        const NAMES: &[&str] = &[
-            "::fold", "::try_fold", "::for_each", "::try_for_each", "::all", "::any", "::sum", "::product", "::count",
-            "::position", "::find", "::max", "::min", "::last", "::nth", "::rfold", "::try_rfold",
+        // modules of core whose functions are plain safe code over their arguments (adaptors, combinators): their own MIR can
+        // stand in where the primitive table has no entry
+        const MODS: &[&str] = &[
+            "core::iter::", "<core::iter::", "core::slice::iter::", "<core::slice::", "<core::ops::Range", "core::ops::range::",
+            "<core::ops::range::", "core::array::", "<core::array::", "core::option::", "<core::option::", "core::result::",
+            "<core::result::", "core::bool::", "core::cmp::", "<core::cmp::", "core::ops::function::", "core::ops::try_trait::",
+            "<core::ops::control_flow::", "core::ops::control_flow::", "core::convert::", "<core::convert::",
+            "core::tuple::", "<core::num::", "core::num::", "core::ops::", "<core::ops::",
         ];
-        (p.starts_with("core::iter::") || p.starts_with("<core::iter::") || p.starts_with("core::slice::iter::")
-            || p.starts_with("<core::slice::") || p.starts_with("<core::ops::Range") || p.starts_with("core::array::"))
-            && NAMES.iter().any(|n| p.ends_with(n))
+        MODS.iter().any(|m| p.starts_with(m))
     }
 
     /// how a constant of a monomorphic enum type is laid out: where the directly encoded tag is and which tag value each
@@ -328,10 +334,19 @@ impl<'tcx> Dumper<'tcx> {
                     .iter()
                     .map(|t| jint(self.ty(t) as i128))
                     .collect();
+                // the body of this instantiation of the closure (the parent's generic arguments are part of `args`)
+                let body = if self.tcx.is_mir_available(*def) {
+                    let inst = Instance::new_raw(*def, args);
+                    let env = self.cur_env.unwrap_or_else(|| TypingEnv::post_analysis(self.tcx, *def));
+                    jstr(self.enqueue(inst, env))
+                } else {
+                    J::Null
+                };
                 jobj(vec![
                     ("k", jstr("closure")),
                     ("def", jstr(self.path(*def))),
                     ("upvars", jarr(ups)),
+                    ("body", body),
                     ("s", jstr(s)),
                 ])
             }
@@ -732,8 +747,9 @@ impl<'tcx> Dumper<'tcx> {
                             ("union_field", active.map(|f| jint(f.as_u32() as i128)).unwrap_or(J::Null)),
                         ])
                     }
-                    mir::AggregateKind::Closure(def, _) => {
-                        jobj(vec![("k", jstr("closure")), ("def", jstr(self.path(*def)))])
+                    mir::AggregateKind::Closure(def, args) => {
+                        let t = self.ty(Ty::new_closure(self.tcx, *def, args));
+                        jobj(vec![("k", jstr("closure")), ("def", jstr(self.path(*def))), ("ty", jint(t as i128))])
                     }
                     mir::AggregateKind::RawPtr(t, m) => {
                         let t = self.ty(*t);
@@ -750,6 +766,7 @@ impl<'tcx> Dumper<'tcx> {
 
     fn dump_body(&mut self, inst: Instance<'tcx>, env: TypingEnv<'tcx>, key: &str) -> J {
         let tcx = self.tcx;
+        self.cur_env = Some(env);
         let def = inst.def_id();
         let body0 = tcx.instance_mir(inst.def);
         let body: mir::Body<'tcx> = inst.instantiate_mir_and_normalize_erasing_regions(
@@ -1096,6 +1113,7 @@ impl<'tcx> Dumper<'tcx> {
             let j = self.dump_body(inst, env, &key);
             self.bodies.insert(key, j);
         }
+        self.cur_env = None;
 
         let bodies = std::mem::take(&mut self.bodies);
         let tys = std::mem::take(&mut self.tys);
